@@ -1,5 +1,7 @@
 import WS.Lemmas.ReaderRejects
 import WS.Lemmas.ReaderDecodes
+import WS.Lemmas.ReaderLift
+import WS.Lemmas.ReaderMore
 /-
   C06 — Read limit is exact, history-independent and bounds memory.
 -/
@@ -56,5 +58,55 @@ theorem limit_admits (c : Conn) (hc : ReaderIdle c) (t : Nat) (ht : t = 1 ∨ t 
 /-- memory: skipping the remainder of a frame reads at most 8192 bytes at a time whatever length the
     header claimed (io.CopyN to io.Discard); control payloads are at most 125 bytes -/
 theorem skip_chunk_bounded (n : Nat) : min 8192 n ≤ 8192 := Nat.min_le_left _ _
+
+open WS.Codec WS.ReaderDecodes WS.ReaderLift
+/-- limit at the API: NextReader on an over-limit single-frame message returns ErrReadLimit without
+    consuming a payload byte, and the 1009 close frame is on the wire -/
+theorem nextReader_over_limit (c : Conn) (hc : ReaderIdle c) (hw : WHealthy c.w) (hclient : c.r.isServer = false)
+    (t : Nat) (ht : t = 1 ∨ t = 2) (payload rest : Bytes) (hl : payload.length < 126)
+    (hp : c.r.buf.pending = [UInt8.ofNat (128 + t), UInt8.ofNat payload.length] ++ payload ++ rest)
+    (hlim : 0 < c.r.limit) (hover : c.r.limit < payload.length) :
+    ∃ c', nextReader c = (if c.r.errCount + 1 ≥ 1000 then NRRes.panic else .err .readLimit, c') ∧
+      c'.r.readErr = some .readLimit ∧
+      c'.r.buf.pending = payload ++ rest ∧
+      c'.w.wire = c.w.wire ++ closeFrameBytes c.w (closePayload 1009 []) := by
+  first | exact ReaderLift.nextReader_over_limit_total .. | (apply ReaderLift.nextReader_over_limit_total <;> assumption)
+
+open WS.ReaderMore in
+theorem nextReader_over_limit_reachable (c : Conn) (hc : ReaderIdle c) (hi : CountInv c) (hw : WHealthy c.w) (hclient : c.r.isServer = false)
+    (t : Nat) (ht : t = 1 ∨ t = 2) (payload rest : Bytes) (hl : payload.length < 126)
+    (hp : c.r.buf.pending = [UInt8.ofNat (128 + t), UInt8.ofNat payload.length] ++ payload ++ rest)
+    (hlim : 0 < c.r.limit) (hover : c.r.limit < payload.length) :
+    ∃ c', nextReader c = (.err .readLimit, c') ∧ c'.r.readErr = some .readLimit ∧
+      c'.r.buf.pending = payload ++ rest ∧
+      c'.w.wire = c.w.wire ++ closeFrameBytes c.w (closePayload 1009 []) := by
+  first | exact ReaderMore.nextReader_over_limit_reach .. | (apply ReaderMore.nextReader_over_limit_reach <;> assumption)
+
+open WS.ReaderMore in
+/-- the limit inside a fragmented message: the continuation frame (final or not) that takes the
+    running sum over the limit is refused by the Read that meets it — ErrReadLimit, no byte
+    delivered, no payload byte consumed, 1009 close frame written -/
+theorem read_over_limit_mid_message (c : Conn) (rid : Nat) (hc : MidMessage c rid) (hw : WHealthy c.w)
+    (hclient : c.r.isServer = false) (fin : Bool) (payload rest : Bytes) (hl : payload.length < 126)
+    (hp : c.r.buf.pending = [UInt8.ofNat (if fin then 128 else 0), UInt8.ofNat payload.length] ++ payload ++ rest)
+    (hlim : 0 < c.r.limit) (hsum : 0 ≤ c.r.length) (hsmall : c.r.length < 2 ^ 62)
+    (hover : c.r.limit < c.r.length + payload.length) (k : Nat) (hk : 0 < k) :
+    ∃ c', mrRead c rid k = (([], some .readLimit), c') ∧ c'.r.readErr = some .readLimit ∧
+      c'.r.buf.pending = payload ++ rest ∧
+      c'.w.wire = c.w.wire ++ closeFrameBytes c.w (closePayload 1009 []) := by
+  first | exact ReaderMore.read_over_limit_mid_message .. | (apply ReaderMore.read_over_limit_mid_message <;> assumption)
+
+open WS.ReaderMore in
+/-- the running sum is the sum of the frame lengths of the current message: an accepted data frame
+    adds exactly its length, a text/binary frame restarts the sum -/
+theorem accepted_frame_adds_length (c : Conn) (hc : AtBoundary c) (b0 b1 : UInt8) (rest : Bytes)
+    (hclient : c.r.isServer = false) (hp : c.r.buf.pending = b0 :: b1 :: rest)
+    (hok : ¬ Violates c.r.isServer c.r.nego (!c.r.final) (parseHdr b0 b1))
+    (hdata : (parseHdr b0 b1).opcode ≤ 2) (hlen : (parseHdr b0 b1).len7 < 126)
+    (hsum : 0 ≤ c.r.length) (hsmall : c.r.length < 2 ^ 62)
+    (hunder : c.r.limit ≤ 0 ∨ sumBase c (parseHdr b0 b1) + (parseHdr b0 b1).len7 ≤ c.r.limit) :
+    ∃ res c', advanceFrame c = (res, c') ∧ (∀ e, res ≠ .error e) ∧
+      c'.r.length = sumBase c (parseHdr b0 b1) + (parseHdr b0 b1).len7 := by
+  first | exact ReaderMore.accepted_frame_adds_length .. | (apply ReaderMore.accepted_frame_adds_length <;> assumption)
 
 end WS.Props.C06
